@@ -74,7 +74,13 @@ fn parts_for(prop: &str, tier: Tier) -> Vec<Box<dyn explore::Harness>> {
             Box::new(burst::BurstHarness { prop: "C08", cfgs: burst::configs_many(burst::Side::ServerManyExpire, tier == Tier::Thorough) }),
             s(SProp::C08),
         ],
-        "C10" => vec![c(CProp::C10), s(SProp::C10)],
+        "C10" => vec![
+            // the client as the examples run it (spawned dispatch, tokio's cooperative budget): the
+            // drain at shutdown spans several task polls
+            Box::new(burst::BurstHarness { prop: "C10", cfgs: burst::configs_many(burst::Side::SpawnedClientShutdown, tier == Tier::Thorough) }),
+            c(CProp::C10),
+            s(SProp::C10),
+        ],
         "C11" => vec![
             Box::new(burst::BurstHarness { prop: "C11", cfgs: burst::configs(tier == Tier::Thorough) }),
             c(CProp::C11),
